@@ -2,16 +2,18 @@ import EaselModel.Msafile.A2mReadDomain
 import EaselModel.Msafile.AfaLemmas
 import EaselModel.Msafile.AfaWritable
 /-! "Reformat stability", aligned FASTA: what `esl_msafile_afa_Read` returns lies in the domain of the AFA round-trip theorem
-    (`AfaTextWritable` / `AfaDigitalWritable`), except that (a) no name line the writer will print may end in CR, and
-    (b) in text mode the residue `>` (a graphic character the reader stores when it is not the first of its line) must not
-    occur in a row: the writer would put it at the start of an output line sooner or later. -/
+    (`AfaTextWritable` / `AfaDigitalWritable`), except that no name line the writer will print may end in CR.  (The text-mode
+    input map rejects `>` as a residue since the repair of C03:reformat:afa-gt-residue, so no row the reader returns holds it.) -/
 namespace EaselModel.Msafile
+
+/-- a character the text-mode reader stores as a residue: graphic and not the record marker `>` -/
+def afaResCh (c : UInt8) : Bool := isGraph c && c != 62
 
 /-- text rows hold graphic characters only -/
 structure AfaNdInv (cfg : Cfg) (st : AfaSt) : Prop where
   nd : NamesDescsOk st.names st.sqdesc
-  rows : cfg.digital = false → ∀ r ∈ st.rows, r.all isGraph = true
-  cur : cfg.digital = false → ∀ r, st.cur = some r → r.all isGraph = true
+  rows : cfg.digital = false → ∀ r ∈ st.rows, r.all afaResCh = true
+  cur : cfg.digital = false → ∀ r, st.cur = some r → r.all afaResCh = true
 
 theorem afaNdInv_init (cfg : Cfg) : AfaNdInv cfg {} :=
   { nd := namesDescsOk_init, rows := fun _ r h => by simp at h, cur := fun _ r h => by simp at h }
@@ -74,9 +76,9 @@ theorem strmapcat_all (m : InMap) (P : UInt8 → Bool) (h : m.emits P = true) (d
 
 def AfaNdGood (cfg : Cfg) (r : Res Msa) : Prop :=
   ∀ m, r = .ok m → NamesDescsOk m.names m.sqdesc ∧ m.sqacc = none ∧ m.digital = cfg.digital ∧ m.kp = cfg.kp ∧ 1 ≤ m.alen ∧
-    (cfg.digital = false → ∀ r ∈ m.aseq, r.all isGraph = true)
+    (cfg.digital = false → ∀ r ∈ m.aseq, r.all afaResCh = true)
 
-theorem afaStep_nd (cfg : Cfg) (hg : cfg.digital = false → cfg.inmap.emits isGraph = true) (st : AfaSt) (l : Bytes)
+theorem afaStep_nd (cfg : Cfg) (hg : cfg.digital = false → cfg.inmap.emits afaResCh = true) (st : AfaSt) (l : Bytes)
     (hi : AfaNdInv cfg st) : StepOk (AfaNdInv cfg) (AfaNdGood cfg) (afaStep cfg st l) := by
   cases hs : afaStep cfg st l with
   | inr r =>
@@ -113,7 +115,7 @@ theorem afaStep_nd (cfg : Cfg) (hg : cfg.digital = false → cfg.inmap.emits isG
             refine { nd := hi.nd, rows := hi.rows, cur := ?_ }
             intro hd r hr
             have h2 : (strmapcat cfg.inmap st.cur (l.dropWhile isSpace)).2 = some r := by simpa [hd] using hr
-            exact strmapcat_all cfg.inmap isGraph (hg hd) st.cur _ (hi.cur hd) r h2
+            exact strmapcat_all cfg.inmap afaResCh (hg hd) st.cur _ (hi.cur hd) r h2
 
 theorem afaFinish_nd (cfg : Cfg) (st : AfaSt) (hi : AfaNdInv cfg st) : AfaNdGood cfg (afaFinish cfg st) := by
   unfold afaFinish
@@ -135,7 +137,7 @@ theorem afaFinish_nd (cfg : Cfg) (st : AfaSt) (hi : AfaNdInv cfg st) : AfaNdGood
       simp only [hd, Bool.false_eq_true, if_false] at hr
       exact h1.rows hd r hr
 
-theorem afaRead_nd (cfg : Cfg) (hg : cfg.digital = false → cfg.inmap.emits isGraph = true) (lines : List Bytes) :
+theorem afaRead_nd (cfg : Cfg) (hg : cfg.digital = false → cfg.inmap.emits afaResCh = true) (lines : List Bytes) :
     AfaNdGood cfg (afaRead cfg lines).1 :=
   runLines_inv (afaStep cfg) (afaFinish cfg) (AfaNdInv cfg) (AfaNdGood cfg) (fun st l h => afaStep_nd cfg hg st l h)
     (fun st h => afaFinish_nd cfg st h) lines {} (afaNdInv_init cfg)
@@ -150,17 +152,13 @@ theorem afaHdrOkB_lineOk (m : Msa) (h : afaHdrOkB m = true) : ∀ i, i < m.nseq 
   simp only [Bool.and_eq_true, Bool.not_eq_true', bne_iff_ne, ne_eq] at this
   exact ⟨by simpa using this.1, this.2⟩
 
-/-- no text row holds the character `>` -/
-def afaNoGtB (m : Msa) : Bool := m.aseq.all fun r => !r.contains 62
-
-def afaTextGraphB : Bool := (afaInmap none).emits isGraph
+def afaTextGraphB : Bool := (afaInmap none).emits afaResCh
 
 theorem afaTextGraphB_true : afaTextGraphB = true := by decide +kernel
 
-/-- **what the AFA reader returns in text mode can be written and read back**, given that the name lines survive and no
-    residue is `>` -/
+/-- **what the AFA reader returns in text mode can be written and read back**, given that the name lines survive -/
 theorem afaRead_domain_text (lines : List Bytes) (m : Msa) (rest : List Bytes)
-    (h : afaRead (afaCfg none) lines = (.ok m, rest)) (hh : afaHdrOkB m = true) (hgt : afaNoGtB m = true) : AfaTextWritable m := by
+    (h : afaRead (afaCfg none) lines = (.ok m, rest)) (hh : afaHdrOkB m = true) : AfaTextWritable m := by
   have hg := afaRead_good (afaCfg none) ⟨by decide +kernel, by decide +kernel⟩ lines
   have hn := afaRead_nd (afaCfg none) (fun _ => afaTextGraphB_true) lines
   rw [h] at hg hn
@@ -176,14 +174,10 @@ theorem afaRead_domain_text (lines : List Bytes) (m : Msa) (rest : List Bytes)
       hdr_line := afaHdrOkB_lineOk m hh
       row_ok := fun i hi => by
         have hmem := rd_getD_mem m.aseq i (by rw [hrows.1]; exact hi)
-        refine ⟨(hrows.2 _ hmem).1, fun t ht => ⟨?_, ?_⟩⟩
-        · have := (List.all_eq_true.mp (hgr rfl _ hmem)) t ht
-          exact this
-        · intro h62
-          subst h62
-          have := (List.all_eq_true.mp hgt) _ hmem
-          simp only [Bool.not_eq_true', List.contains_eq_mem, decide_eq_false_iff_not] at this
-          exact this ht }
+        refine ⟨(hrows.2 _ hmem).1, fun t ht => ?_⟩
+        have := (List.all_eq_true.mp (hgr rfl _ hmem)) t ht
+        simp only [afaResCh, Bool.and_eq_true, bne_iff_ne, ne_eq] at this
+        exact this }
 
 /-- … and in digital mode (no condition on the residues: no alphabet symbol is `>`) -/
 theorem afaRead_domain_digital (a : Abc) (hv : (afaCfg (some a)).valid) (lines : List Bytes) (m : Msa) (rest : List Bytes)
